@@ -1,18 +1,75 @@
 package main
 
-import "time"
+import (
+	"flag"
+	"fmt"
+	"os"
+	"strings"
+	"sync"
+	"time"
+)
 
-// placeholders until the SCHED and CLI engines are in place
+func cliStubMain(args []string) {}
 
-
-
-type CLIStep struct{}
-
-func (s CLIStep) summary() any { return nil }
-
-func genCLI(seed uint64, prop, tier, mode string) *Plan     { die(2, "cli engine not built yet"); return nil }
-func runCLI(p *Plan, keepLog bool) *RunResult               { die(2, "cli engine not built yet"); return nil }
-func cliStubMain(args []string)                             {}
-func selftestDeterminism(args []string)                     {}
-func minimiseCLI(p *Plan, test func(*Plan) bool, deadline time.Time) *Plan   { return nil }
-
+// selftestDeterminism: every engine/profile, N seeds, each seed in three fresh
+// processes at GOMAXPROCS 1, 4 and 16 with 16 workers busy; the event logs must
+// be byte-identical. Exit 0 all identical, 2 otherwise (never a VIOLATION).
+func selftestDeterminism(args []string) {
+	fs := flag.NewFlagSet("selftest-determinism", flag.ExitOnError)
+	n := fs.Int("n", 70, "seeds per engine/profile")
+	fs.Parse(args)
+	type ep struct{ engine, prop, mode string }
+	eps := []ep{{"hist", "C05", ""}, {"hist", "C07", ""}, {"hist", "C08", ""}, {"hist", "C11", ""}, {"hist", "C01", ""}, {"hist", "C11", "tornsweep:3/32"},
+		{"fault", "C04", ""}, {"fault", "C01", ""}, {"sched", "C10", ""}, {"cli", "C15", ""}}
+	bad := 0
+	total := 0
+	var mu sync.Mutex
+	var wg sync.WaitGroup
+	sem := make(chan struct{}, workers())
+	for _, e := range eps {
+		for i := 0; i < *n; i++ {
+			e, i := e, i
+			wg.Add(1)
+			sem <- struct{}{}
+			go func() {
+				defer wg.Done()
+				defer func() { <-sem }()
+				seed := runSeed(batchSeed()^0xd37, e.engine+e.mode, e.prop+"/selftest", i)
+				var logs []string
+				for _, mp := range []int{1, 4, 16} {
+					spec := batchSpec{Engine: e.engine, Prop: e.prop, Mode: e.mode, MaxProcs: mp}
+					res, stderr, err := spawnRun(spec, "quick", seed, "", true, 300*time.Second)
+					if err != nil {
+						mu.Lock()
+						bad++
+						fmt.Printf("selftest: %s/%s seed %d GOMAXPROCS=%d: %v %s\n", e.engine, e.prop, seed, mp, err, clip(stderr, 300))
+						mu.Unlock()
+						return
+					}
+					logs = append(logs, strings.Join(res.Log, "\n")+"\n#"+res.TraceHash)
+				}
+				mu.Lock()
+				total++
+				if logs[0] != logs[1] || logs[0] != logs[2] {
+					bad++
+					a, b := strings.Split(logs[0], "\n"), strings.Split(logs[1], "\n")
+					if logs[0] == logs[1] {
+						b = strings.Split(logs[2], "\n")
+					}
+					for k := 0; k < len(a) && k < len(b); k++ {
+						if a[k] != b[k] {
+							fmt.Printf("selftest: %s/%s seed %d diverges at line %d:\n  %s\n  %s\n", e.engine, e.prop, seed, k+1, clip(a[k], 300), clip(b[k], 300))
+							break
+						}
+					}
+				}
+				mu.Unlock()
+			}()
+		}
+	}
+	wg.Wait()
+	fmt.Printf("selftest-determinism: %d seeds x 3 processes (GOMAXPROCS 1/4/16), %d diverged or failed\n", total, bad)
+	if bad > 0 {
+		os.Exit(2)
+	}
+}
